@@ -21,7 +21,8 @@ RULE_TEXT = ("C01-T: for every witness interface (hand-designed families + VERIF
              "execute_command exactly once; C01-Q: the call parse returns has query = `?` consumed behind the header and "
              "node = the node the header parser returned."
              " C01-PR: the contracts of the parser combinators the skeleton builds on are read from their bodies - satisfy (accept first byte iff pred / soft error / Incomplete on empty), take_while (never fails; longest prefix, position() form or counting-loop form), optional (never fails; Some(value) or input untouched), tag(b) = satisfy(== b)."
-             " C01-H: parse resolves the header of a unit once, with its own (root, path) arguments (no retry from the root).")
+             " C01-H: parse resolves the header of a unit once, with its own (root, path) arguments (no retry from the root)."
+             " C01-F: parse skips a unit (`no call`) only for an empty message.")
 
 CHILD = "microscpi::tree::Node::child"
 EXECUTE = "microscpi::interface::Interface::execute"
@@ -41,6 +42,11 @@ def run(ck):
     rule_W(ck, lib)
     import c02
     c02.rule_H2(ck, lib, "C01-H")
+    # ... and a unit is skipped (`no call`) only when the message is empty: an accepted empty unit in the middle of a
+    # message makes run reset the path, so the header behind it selects a root-level handler
+    import parsefields
+    import skeleton
+    parsefields.check(ck, lib, skeleton.Skeleton(ck, lib), "C01-F", ("empty",))
     # the node a relative header is looked up in: root at the start of every message (else a header with a missing
     # level would be accepted relative to a stale path)
     import c02
